@@ -48,6 +48,9 @@ fn main() {
     if let Ok(m) = std::env::var("VPH_POISON") {
         POISON_MODE.store(m.parse().unwrap_or(0), std::sync::atomic::Ordering::Relaxed);
     }
+    // nested pool.install calls let a blocked worker steal further jobs on the same stack: give the
+    // workers room (virtual memory only)
+    let _ = rayon::ThreadPoolBuilder::new().stack_size(1 << 29).build_global();
     // panics inside code under test are data; keep the default hook quiet
     std::panic::set_hook(Box::new(|_| {}));
     let rep = match args[1].as_str() {
